@@ -38,6 +38,7 @@ func TestVerifC13(t *testing.T) {
 		t.Skip("VERIF_OUT not set")
 	}
 	rep := &simReport{Extra: map[string]any{}}
+	simOnStall("c13_result.json", rep)
 	defer simWriteReport("c13_result.json", rep)
 
 	states := []c13State{
@@ -106,7 +107,7 @@ func TestVerifC13(t *testing.T) {
 					continue
 				}
 				name := fmt.Sprintf("%s/%s/%s", st.name, entry, kind)
-				synctest.Test(t, func(t *testing.T) {
+				verifsim.Bubble(t, func(t *testing.T) {
 					tr := &verifsim.Trace{}
 					cl := verifsim.NewCluster(tr)
 					cl.AddServer("ms")
